@@ -12,3 +12,26 @@ Theorem C03_computed_once :
         first_body (ci_key i) (seen ++ [i]) = Some (co_ret o).
 Proof. exact C03w_once. Qed.
 Print Assumptions C03_computed_once.
+
+(* concurrent half (sync global cache, abstract model ConcModel restricted to what a cache without limit,
+   ttl, memory bound, predicate and invalidation does): once ANY caller's store has put the key into the
+   map, every later lookup by anybody finds it, with the function's value, under every interleaving of
+   the remaining critical sections — "never again once any call that stored the result has returned" *)
+From CL Require Import ConcModel PfShare.
+Theorem C03_stored_stays_stored :
+  forall f s s' k,
+    psteps f s s' -> vlookup k (c_store s) = Some (f k) -> vlookup k (c_store s') = Some (f k).
+Proof. exact stored_stays_stored. Qed.
+Print Assumptions C03_stored_stays_stored.
+
+Theorem C03_after_a_store_every_lookup_hits :
+  forall f s t k s1 s',
+    s1 = mkC (vset k (f k) (c_store s)) (c_queue s) ((t, k) :: c_pending s) ->
+    psteps f s1 s' -> vmem k (c_store s') = true /\ vlookup k (c_store s') = Some (f k).
+Proof. exact after_a_store_every_lookup_hits. Qed.
+Print Assumptions C03_after_a_store_every_lookup_hits.
+
+(* the restricted system is part of the full one *)
+Theorem C03_plain_steps_are_cache_steps : forall pc f s s', pstep f s s' -> cstep None pc f s s'.
+Proof. exact pstep_is_cstep. Qed.
+Print Assumptions C03_plain_steps_are_cache_steps.
